@@ -1,11 +1,12 @@
 // C07 correspondence harness: orientation index / filter, point-in-ring, segment-segment intersection,
 // ring orientation.  Inputs are integer lattice points times one common power of two (exact in double),
 // plus a stream of arbitrary finite doubles for the orientation predicate.
-//   c07 <stream> <seed> <n> <outbase>      stream in orient | orientarb | orientf | ring | segseg | ccw
+//   c07 <stream> <seed> <n> <outbase>      stream in orient | orientarb | orientf | ring | poly | ploc | segseg | ccw
 //   c07 replay <stream> <file>             recompute the implementation side for the case lines in <file>;
 //                                          prints, per line, the regenerated case line then the expect line
-#include "common.h"
+#include "gtree.h"
 #include <geos_c.h>
+#include <geos/algorithm/PointLocator.h>
 #include <geos/algorithm/CGAlgorithmsDD.h>
 #include <geos/algorithm/Orientation.h>
 #include <geos/algorithm/RayCrossingCounter.h>
@@ -488,6 +489,7 @@ struct PolyCache {
     std::unique_ptr<geos::geom::Polygon> poly;
     std::unique_ptr<geos::algorithm::locate::IndexedPointInAreaLocator> ipa;
     GEOSGeometry* cpoly = nullptr; const GEOSPreparedGeometry* prep = nullptr;
+    geos::algorithm::PointLocator ploc;
     explicit PolyCache(GEOSContextHandle_t hh) : h(hh), gf(geos::geom::GeometryFactory::create()) {}
     void clear() {
         ipa.reset(); poly.reset();
@@ -552,6 +554,9 @@ static std::string ringExpect(PolyCache& pc, bool simple, double px, double py, 
         s += ' ';
         if (!pc.prep) s += "NOPOLY";
         else { char c = GEOSPreparedIntersectsXY_r(pc.h, pc.prep, px, py); s += c == 1 ? '1' : c == 0 ? '0' : 'E'; }
+        s += ' ';
+        if (!pc.poly) s += "NOPOLY";
+        else { try { s += locTok(pc.ploc.locate(p, static_cast<const geos::geom::Geometry*>(pc.poly.get()))); } catch (...) { s += "EXC"; } }   // the general-purpose PointLocator, one object reused
     }
     return s;
 }
@@ -758,8 +763,8 @@ static GEOSGeometry* mkPoly(GEOSContextHandle_t h, const std::vector<std::vector
 
 // shell: the box rectangle (sometimes with extra collinear vertices) or a convex hull; holes: small convex rings strictly inside,
 // pairwise disjoint but with freely overlapping envelopes (triangles next to squares), checked with GEOSisValid
-static PolyG genPoly(GEOSContextHandle_t h, Rng& r, Out& out) {
-    PolyG g; g.box = pickBox(r, out); Box b = g.box;
+static PolyG genPolyIn(GEOSContextHandle_t h, Rng& r, Out& out, const Box& box0) {
+    PolyG g; g.box = box0; Box b = g.box;
     if (b.hix - b.lox < 6) b.hix = b.lox + 6; if (b.hiy - b.loy < 6) b.hiy = b.loy + 6;
     if (b.hix > GRID) { b.lox -= b.hix - GRID; b.hix = GRID; } if (b.hiy > GRID) { b.loy -= b.hiy - GRID; b.hiy = GRID; }
     g.box = b;
@@ -791,16 +796,19 @@ static PolyG genPoly(GEOSContextHandle_t h, Rng& r, Out& out) {
     return g;
 }
 
+static PolyG genPoly(GEOSContextHandle_t h, Rng& r, Out& out) { Box b = pickBox(r, out); return genPolyIn(h, r, out, b); }
+
 static std::string polyCaseLine(double px, double py, const std::vector<std::vector<double>>& rings) {
     std::string s = "Y " + std::to_string(rings.size()); addHex(s, px); addHex(s, py);
     for (auto& xy : rings) { s += " " + std::to_string(xy.size() / 2); for (double d : xy) addHex(s, d); }
     return s;
 }
-struct PolyObj { GEOSContextHandle_t h; GEOSGeometry* poly = nullptr; const GEOSPreparedGeometry* prep = nullptr; std::unique_ptr<geos::algorithm::locate::IndexedPointInAreaLocator> ipa;
+struct PolyObj { GEOSContextHandle_t h; geos::algorithm::PointLocator ploc; GEOSGeometry* poly = nullptr; const GEOSPreparedGeometry* prep = nullptr; std::unique_ptr<geos::algorithm::locate::IndexedPointInAreaLocator> ipa;
     PolyObj(GEOSContextHandle_t hh, const std::vector<std::vector<double>>& rings) : h(hh) { poly = mkPoly(h, rings);
         if (poly) { prep = GEOSPrepare_r(h, poly); try { ipa = std::make_unique<geos::algorithm::locate::IndexedPointInAreaLocator>(*reinterpret_cast<geos::geom::Geometry*>(poly)); } catch (...) {} } }
     ~PolyObj() { ipa.reset(); if (prep) GEOSPreparedGeom_destroy_r(h, prep); if (poly) GEOSGeom_destroy_r(h, poly); } };
 // tokens: SimplePointInAreaLocator  IndexedPointInAreaLocator  GEOSPreparedIntersectsXY  GEOSIntersects(point)  GEOSContains(poly, point)  GEOSPreparedContainsXY
+//         PointLocator::locate  GEOSPreparedIntersects(prepared POINT, polygon)  [PreparedPoint -> BasicPreparedGeometry::isAnyTargetComponentInTest -> PointLocator]
 static std::string polyExpect(PolyObj& po, double px, double py, char* locOut = nullptr) {
     if (!po.poly) return "NOPOLY";
     CoordinateXY p(px, py); std::string s;
@@ -813,7 +821,91 @@ static std::string polyExpect(PolyObj& po, double px, double py, char* locOut = 
     s += ' '; s += pt ? tf(GEOSIntersects_r(po.h, po.poly, pt)) : 'N';
     s += ' '; s += pt ? tf(GEOSContains_r(po.h, po.poly, pt)) : 'N';
     s += ' '; s += po.prep ? tf(GEOSPreparedContainsXY_r(po.h, po.prep, px, py)) : 'N';
+    s += ' ';
+    try { s += locTok(po.ploc.locate(p, reinterpret_cast<geos::geom::Geometry*>(po.poly))); } catch (...) { s += "EXC"; }
+    s += ' ';
+    { const GEOSPreparedGeometry* pp = pt ? GEOSPrepare_r(po.h, pt) : nullptr;
+      s += pp ? tf(GEOSPreparedIntersects_r(po.h, pp, po.poly)) : 'N';
+      if (pp) GEOSPreparedGeom_destroy_r(po.h, pp); }
     if (pt) GEOSGeom_destroy_r(po.h, pt);
+    return s;
+}
+
+// ------------------------------------------------------------------------------------------ PointLocator on any geometry
+
+static std::string seqTokI(const std::vector<IP>& v, int k) {
+    std::string s = "xy " + std::to_string(v.size());
+    for (auto& q : v) { addHex(s, sc(q.x, k)); addHex(s, sc(q.y, k)); }
+    return s;
+}
+// geometry trees over lattice points of one box: points, open / closed / zero-length lines, rings, polygons with holes,
+// MULTI* and nested collections with empty elements; end points and vertices are re-used between elements so that the
+// Mod-2 rule sees boundary counts 0, 1, 2, 3
+struct PlocGen {
+    GEOSContextHandle_t h; Rng& r; Out& out; Box b; int k;
+    std::vector<IP> pool; std::vector<std::vector<IP>> chains;
+    PlocGen(GEOSContextHandle_t hh, Rng& rr, Out& oo, const Box& bb, int kk) : h(hh), r(rr), out(oo), b(bb), k(kk) {}
+    IP pt() { if (!pool.empty() && r.chance(40)) return pool[r.below(pool.size())]; return rndIn(r, b); }
+    std::string point() {
+        if (r.chance(6)) { out.count("ploc_elem_point_empty"); return "P xy 0"; }
+        IP p = pt(); pool.push_back(p); chains.push_back({p}); out.count("ploc_elem_point"); return "P " + seqTokI({p}, k); }
+    std::string line() {
+        if (r.chance(5)) { out.count("ploc_elem_line_empty"); return "L xy 0"; }
+        std::vector<IP> v; int n = r.range(2, 6); for (int i = 0; i < n; i++) v.push_back(pt());
+        int m = (int) r.below(100);
+        if (m < 22 && n >= 3) { v.push_back(v[0]); out.count("ploc_elem_line_closed"); }
+        else if (m < 28) { v.resize(2); v[1] = v[0]; out.count("ploc_elem_line_zero_length"); }
+        else if (m < 40) { insertCollinear(r, v, 60); if (v.size() > 2 && r.chance(50)) v.pop_back(); out.count("ploc_elem_line_collinear_vertices"); }
+        else out.count("ploc_elem_line_open");
+        pool.push_back(v.front()); pool.push_back(v.back()); if (v.size() > 2) pool.push_back(v[1 + r.below(v.size() - 2)]);
+        chains.push_back(v); return "L " + seqTokI(v, k); }
+    Box subBox() {
+        ll S = b.hix - b.lox; if (S < 14 || r.chance(40)) return b;
+        ll w = randIn(r, 6, S), x0 = randIn(r, b.lox, b.hix - w), y0 = randIn(r, b.loy, b.hiy - w);
+        return Box{x0, y0, x0 + w, y0 + w}; }
+    std::string ring() {
+        std::vector<IP> p; Box sb = subBox();
+        int m = (int) r.below(3);
+        if (m == 0) p = staircase(r, sb); else if (m == 1) p = starPolygon(r, sb, r.range(4, 9)); else { std::vector<IP> pts; int n = r.range(3, 9); for (int i = 0; i < n; i++) pts.push_back(rndIn(r, sb)); p = convexHull(pts); }
+        if (p.size() < 3) p = {IP{sb.lox, sb.loy}, IP{sb.hix, sb.loy}, IP{sb.lox, sb.hiy}};
+        if (r.chance(30)) insertCollinear(r, p, 50);
+        if (r.chance(50)) std::reverse(p.begin(), p.end());
+        p.push_back(p[0]); pool.push_back(p[r.below(p.size())]); chains.push_back(p); out.count("ploc_elem_ring");
+        return "R " + seqTokI(p, k); }
+    std::string poly() {
+        if (r.chance(5)) { out.count("ploc_elem_polygon_empty"); return "Y 1 xy 0"; }
+        PolyG g = genPolyIn(h, r, out, subBox());
+        std::string s = "Y " + std::to_string(g.rings.size());
+        for (auto& rg : g.rings) { s += " " + seqTokI(rg, k); chains.push_back(rg); pool.push_back(rg[r.below(rg.size())]); }
+        out.count("ploc_elem_polygon"); return s; }
+    std::string multi(const char* tag, int kind, int lo, int hi) {
+        int n = r.range(lo, hi); std::string s = std::string(tag) + " " + std::to_string(n);
+        for (int i = 0; i < n; i++) s += " " + (kind == 0 ? point() : kind == 1 ? line() : poly());
+        out.count(std::string("ploc_") + tag); return s; }
+    std::string geom(int depth) {
+        int t = (int) r.below(100);
+        if (depth == 0) {
+            if (t < 5) return point(); if (t < 17) return line(); if (t < 23) return ring(); if (t < 38) return poly();
+            if (t < 46) return multi("MP", 0, 0, 4); if (t < 62) return multi("ML", 1, 1, 4); if (t < 74) return multi("MY", 2, 1, 3);
+        } else {
+            if (t < 20) return point(); if (t < 48) return line(); if (t < 54) return ring(); if (t < 76) return poly();
+            if (t < 81) return multi("MP", 0, 0, 3); if (t < 89) return multi("ML", 1, 1, 3); if (t < 94 || depth >= 2) return multi("MY", 2, 1, 2);
+        }
+        int n = r.chance(6) ? 0 : r.range(1, 4); std::string s = "GC " + std::to_string(n);
+        for (int i = 0; i < n; i++) s += " " + geom(depth + 1);
+        out.count("ploc_GC_depth_" + std::to_string(depth)); return s; }
+};
+static std::string plocCaseLine(double px, double py, const std::string& gt) { std::string s = "G"; addHex(s, px); addHex(s, py); s += " | 0 " + gt; return s; }
+// tokens: PointLocator::locate  PointLocator::intersects  GEOSPreparedIntersects(prepared POINT, geometry)
+static std::string plocExpect(GEOSContextHandle_t h, geos::algorithm::PointLocator& pl, const geos::geom::Geometry* g, double px, double py, char* locOut = nullptr) {
+    CoordinateXY p(px, py); std::string s;
+    try { char c = locTok(pl.locate(p, g)); s += c; if (locOut) *locOut = c; } catch (...) { s += "EXC"; }
+    s += ' ';
+    try { s += pl.intersects(p, g) ? '1' : '0'; } catch (...) { s += "EXC"; }
+    s += ' ';
+    GEOSGeometry* pt = GEOSGeom_createPointFromXY_r(h, px, py); const GEOSPreparedGeometry* pp = pt ? GEOSPrepare_r(h, pt) : nullptr;
+    if (!pp) s += 'N'; else { char c = GEOSPreparedIntersects_r(h, pp, reinterpret_cast<const GEOSGeometry*>(g)); s += c == 1 ? '1' : c == 0 ? '0' : 'E'; }
+    if (pp) GEOSPreparedGeom_destroy_r(h, pp); if (pt) GEOSGeom_destroy_r(h, pt);
     return s;
 }
 
@@ -840,6 +932,10 @@ static int replay(GEOSContextHandle_t h, const std::string& stream, const char* 
                 if (pos != tk.size() || rings.empty()) throw 1;
                 PolyObj po(h, rings);
                 std::cout << polyCaseLine(px, py, rings) << "\n" << polyExpect(po, px, py) << "\n";
+            } else if (tk[0] == "G" && tk.size() >= 6 && tk[3] == "|") {
+                double px = unhex(tk[1]), py = unhex(tk[2]); std::string gt; for (size_t i = 5; i < tk.size(); i++) { if (i > 5) gt += ' '; gt += tk[i]; }
+                auto g = vh::buildGeom("0 " + gt, geos::geom::GeometryFactory::getDefaultInstance());
+                std::cout << plocCaseLine(px, py, gt) << "\n" << plocExpect(h, pc.ploc, g.get(), px, py) << "\n";
             } else if (tk[0] == "S" && tk.size() >= 9) {
                 double v[8]; for (int i = 0; i < 8; i++) v[i] = unhex(tk[1 + i]);
                 std::string e; std::string c = segBoth(h, v, e);
@@ -924,6 +1020,28 @@ int main(int argc, char** argv) {
                     std::string e = polyExpect(po, px, py, &loc);
                     out.count(std::string("poly_loc_") + loc);
                     out.emit(polyCaseLine(px, py, rings), e);
+                }
+            }
+        } else if (stream == "ploc") {
+            long done = 0; geos::algorithm::PointLocator pl;          // one locator object for the whole stream (its members are query state)
+            auto gf = geos::geom::GeometryFactory::getDefaultInstance();
+            while (done < n) {
+                Box b = pickBox(r, out); int k = commonK(r);
+                PlocGen gen(h, r, out, b, k);
+                std::string gt = gen.geom(0);
+                std::unique_ptr<geos::geom::Geometry> g;
+                try { g = vh::buildGeom("0 " + gt, gf); } catch (...) { out.count("ploc_build_rejected"); continue; }
+                out.count(std::string("ploc_top_") + g->getGeometryType()); if (g->isEmpty()) out.count("ploc_top_empty");
+                int npts = r.range(4, 10);
+                for (int j = 0; j < npts && done < n; j++, done++) {
+                    IP p;
+                    if (gen.chains.empty()) p = rndIn(r, b);
+                    else if (r.chance(25)) { p = gen.pool[r.below(gen.pool.size())]; out.count("pt_kind_shared_vertex"); }
+                    else { RingG tmp; tmp.v = gen.chains[r.below(gen.chains.size())]; tmp.simple = false; tmp.kind = "ploc"; tmp.box = b; p = genTestPoint(r, tmp, out); }
+                    double px = sc(p.x, k), py = sc(p.y, k); char loc = '?';
+                    std::string e = plocExpect(h, pl, g.get(), px, py, &loc);
+                    out.count(std::string("ploc_loc_") + loc);
+                    out.emit(plocCaseLine(px, py, gt), e);
                 }
             }
         } else if (stream == "segseg") {
